@@ -244,7 +244,7 @@ def delivery_post(pre, post, a, ret):
     x = z3.Int(pre.st.uniq("x"))
     return [
         ("pending_uncancellations_only_grow_and_only_for_a_cancelled_origin", z3.ForAll([x], z3.And(pending_(post, x) >= pending_(pre, x), z3.Implies(pending_(post, x) > pending_(pre, x), cc(pre, x))), patterns=[pending_(post, x)])),
-        ("futures_change_only_from_pending_to_cancelled", z3.ForAll([x], z3.Or(pre.f("Future", "state", x) == post.f("Future", "state", x), z3.And(pre.f("Future", "state", x) == 0, post.f("Future", "state", x) == 3)), patterns=[post.f("Future", "state", x)])),
+        ("futures_change_only_from_pending_to_cancelled_and_only_if_a_task_waits_on_them", z3.ForAll([x], z3.Or(pre.f("Future", "state", x) == post.f("Future", "state", x), z3.And(pre.f("Future", "state", x) == 0, post.f("Future", "state", x) == 3, pre.f("Future", "$awaited", x))), patterns=[post.f("Future", "state", x)])),
         ("existing_timer_handles_untouched", z3.ForAll([x], z3.Implies(z3.Select(pre.arr("$", "alloc"), x), z3.And(hwhen(post, x) == hwhen(pre, x), hcancelled(post, x) == hcancelled(pre, x), pre.f("Handle", "cb", x) == post.f("Handle", "cb", x))), patterns=[hwhen(post, x)])),
     ]
 
@@ -389,8 +389,21 @@ class ScopeUnit(MethodUnit):
             return None
         return NotImplemented
 
+    call_frame = None  # the heap keys the call-site form of this operation havocs (its frame): checked against the body
+
     def on_entry(self, ip, pre, a):
         self.unfold(ip, pre, a.self)
+        if self.call_frame is not None:
+            self._wset = set()
+            ip.st.writes = (ip.st.writes or []) + [self._wset]
+
+    def ghost_exit(self, ip, pre, a, exc, ret):
+        if self.call_frame is not None:
+            extra = {w for w in self._wset if w not in self.call_frame and w[0] != "$" and not w[1].startswith("$")}
+            if extra:
+                ip.ctx.fail(f"{self.qualname}/frame:call_form", "frame", f"writes {sorted(extra)} outside the frame its call-site form havocs")
+            else:
+                ip.ctx.oblige(f"{self.qualname}/frame:call_form", z3.BoolVal(True), "frame")
 
     def unfold(self, ip, h, s):
         """instances of the definitions of the spec functions at self, its parent and None (engine-side instantiation)"""
@@ -533,7 +546,7 @@ def _pats(pat, *terms):
 
 def futures_only_get_cancelled(pre, post, pat=True):
     x = z3.Int(pre.st.uniq("x"))
-    return z3.ForAll([x], z3.Or(pre.f("Future", "state", x) == post.f("Future", "state", x), z3.And(pre.f("Future", "state", x) == 0, post.f("Future", "state", x) == 3)), **_pats(pat, post.f("Future", "state", x)))
+    return z3.ForAll([x], z3.Or(pre.f("Future", "state", x) == post.f("Future", "state", x), z3.And(pre.f("Future", "state", x) == 0, post.f("Future", "state", x) == 3, pre.f("Future", "$awaited", x))), **_pats(pat, post.f("Future", "state", x)))
 
 
 def other_sets_untouched(pre, post, s, pat=True):
@@ -646,22 +659,35 @@ def call_enter(ip, args, kwargs):
     return args[0]
 
 
+def cancel_post(pre, post, s):
+    """what a call of S.cancel() guarantees about the whole heap: assumed by the call-site form `call_cancel`, proved as
+    obligations of CancelUnit (one formula list for both)"""
+    x = z3.Int(pre.st.uniq("x"))
+    al = pre.arr("$", "alloc")
+    th = thandle(pre, s)
+    dp = dict(delivery_post(pre, post, None, None))
+    return [
+        ("cancel_called_is_set", cc(post, s)),
+        ("no_other_scope_is_cancelled_or_loses_its_timer", z3.ForAll([x], z3.Implies(x != s, z3.And(cc(post, x) == cc(pre, x), thandle(post, x) == thandle(pre, x))), patterns=[cc(post, x), thandle(post, x)])),
+        ("the_timer_is_kept_on_a_repeated_cancel_and_dropped_on_the_first", z3.And(z3.Implies(cc(pre, s), thandle(post, s) == thandle(pre, s)), z3.Implies(z3.Not(cc(pre, s)), thandle(post, s) == 0))),
+        ("pending_uncancellations_only_grow_and_only_for_a_cancelled_origin", z3.ForAll([x], z3.And(pending_(post, x) >= pending_(pre, x), z3.Implies(pending_(post, x) > pending_(pre, x), cc(post, x))), patterns=[pending_(post, x)])),
+        ("futures", dp["futures_change_only_from_pending_to_cancelled_and_only_if_a_task_waits_on_them"]),
+        ("other_existing_timer_handles_untouched", z3.ForAll([x], z3.Implies(z3.And(z3.Select(al, x), x != th), z3.And(hwhen(post, x) == hwhen(pre, x), hcancelled(post, x) == hcancelled(pre, x), pre.f("Handle", "cb", x) == post.f("Handle", "cb", x))), patterns=[hwhen(post, x)])),
+        ("own_timer_is_cancelled_not_rescheduled", z3.Implies(th != 0, z3.And(hwhen(post, th) == hwhen(pre, th), pre.f("Handle", "cb", th) == post.f("Handle", "cb", th), z3.Implies(hcancelled(pre, th), hcancelled(post, th)), z3.Implies(z3.Not(cc(pre, s)), hcancelled(post, th))))),
+    ]
+
+
 def call_cancel(ip, args, kwargs):
     st = ip.st
     s = args[0].t
     pre = H(st, st.snapshot())
-    frame = {(C, "_cancel_called"), (C, "_cancel_reason"), (C, "_timeout_handle")} | DELIVERY_FRAME
+    frame = CancelUnit.call_frame
     st.havoc(keys=frame)
     if st.writes is not None:
         for ws in st.writes:
             ws.update(frame)
     post = H(st)
-    x = z3.Int(st.uniq("x"))
-    st.assume(cc(post, s))
-    st.assume(z3.ForAll([x], z3.Implies(x != s, z3.And(cc(post, x) == cc(pre, x), thandle(post, x) == thandle(pre, x))), patterns=[cc(post, x), thandle(post, x)]))
-    st.assume(z3.Implies(cc(pre, s), thandle(post, s) == thandle(pre, s)))
-    st.assume(z3.Implies(z3.Not(cc(pre, s)), thandle(post, s) == 0))
-    for n, t in delivery_post(pre, post, None, None):
+    for n, t in cancel_post(pre, post, s):
         st.assume(t)
     return None
 
@@ -763,6 +789,7 @@ def scope_after_havoc(ip, env):
 
 class ExitUnit(ScopeUnit):
     props = ("C03", "C04", "C05", "C06")
+    call_frame = SCOPE_STATE_FRAME
     method = "__exit__"
     contract = None
     loops = {("CancelScope.__exit__", 0): LoopSpec(uncancel_loop_inv, modifies={(C, "_pending_uncancellations"), ("Task", "nuncancel")}, after_havoc=scope_after_havoc)}
@@ -834,6 +861,7 @@ class ExitUnit(ScopeUnit):
 
 class EnterUnit(ScopeUnit):
     props = ("C03", "C04", "C06")
+    call_frame = SCOPE_STATE_FRAME
     method = "__enter__"
     contract = None
 
@@ -869,6 +897,7 @@ class EnterUnit(ScopeUnit):
 
 class CancelUnit(ScopeUnit):
     props = ("C03", "C04", "C06")
+    call_frame = {(C, "_cancel_called"), (C, "_cancel_reason"), (C, "_timeout_handle")} | DELIVERY_FRAME
     method = "cancel"
     contract = None
 
@@ -880,6 +909,8 @@ class CancelUnit(ScopeUnit):
         post = H(ip.st)
         ip.ctx.oblige("CancelScope.cancel/post:cancelled_and_timer_disarmed", z3.And(z3.BoolVal(exc is None), cc(post, s), z3.Implies(z3.Not(cc(pre, s)), z3.And(thandle(post, s) == 0, z3.Implies(thandle(pre, s) != 0, hcancelled(post, thandle(pre, s)))))), "post")
         ip.ctx.oblige("CancelScope.cancel/post:idempotent", z3.Implies(cc(pre, s), scope_fields_same(pre, post, s)), "post")
+        for n, t in cancel_post(pre, post, s):  # exactly what the call-site form `call_cancel` assumes
+            ip.ctx.oblige(f"CancelScope.cancel/post:call_form.{n}", t, "post")
         from specs import c03_delivery as D
 
         ip.ctx.oblige("CancelScope.cancel/post:C03.cancelling_an_entered_scope_schedules_a_delivery_or_no_task_is_live", z3.Implies(z3.And(z3.Not(cc(pre, s)), active(pre, s)), z3.Or(chandle(post, s) != 0, z3.Not(D.live(post, s)))), "post")
